@@ -92,6 +92,17 @@ pub fn add_plan(rng: &mut Rng, profile: &str, tree: &Tree, inv: &mut Inv, oracle
         let r = benign_rule(rng, &pred);
         inv.plan.push(r);
     }
+    // a mount point below the walked directory: one sub-directory reports another device number
+    if let Shape::FormatAll { dir, .. } = &inv.shape {
+        if rng.chance(0.15) {
+            let d = resolve(&inv.cwd, dir.as_deref().unwrap_or(".")).unwrap_or(".".into());
+            let subs: Vec<String> = tree.iter().filter(|(k, n)| matches!(n, Node::Dir) && is_below(k, &d)).map(|(k, _)| k.clone()).collect();
+            if !subs.is_empty() {
+                let s = rng.pick(&subs).clone();
+                inv.plan.push(Rule::new("devno", &s, 0, rng.range(1, 9)));
+            }
+        }
+    }
     // A read-only world: every open for writing (O_WRONLY or O_RDWR) of anything in the world
     // fails, as on a read-only mount or with files the user may read but not write. For the
     // modes that must not write at all - check, stdout, stdin - this has to be transparent.
